@@ -82,7 +82,8 @@ func Material(dir string) (*TLSMaterial, error) {
 			tlsErr = err
 			return
 		}
-		names := []string{"mail.example.test", "localhost"}
+		names := []string{"mail.example.test", "localhost", "127.mail.example.test", "localhost.example.test",
+			"127.0.0.1.relay.example.test", "localhost6.example.test"}
 		ips := []net.IP{net.ParseIP("127.0.0.1"), net.ParseIP("127.0.0.2"), net.ParseIP("::1")}
 		m := &TLSMaterial{CAPEM: pem.EncodeToMemory(&pem.Block{Type: "CERTIFICATE", Bytes: caDER})}
 		if m.Good, err = genLeaf(ca, caKey, names, ips); err != nil {
